@@ -218,14 +218,30 @@ struct ClassInfo {
     const char* name;
     PDU* (*make)();
     PDU* (*parse)(const uint8_t*, uint32_t);
+    Bytes (*make_on)(uint8_t);
     std::vector<Row> rows;
     size_t default_size = 0;
+    std::string ctor_error;
 };
 
 template <class T> static PDU* mk() { return new T(); }
+// serialisation of a default-constructed object built on memory pre-filled with `fill`: it must not depend on the fill
+// (a constructor that leaves header bits indeterminate would make every before/after comparison meaningless)
+template <class T> static T* construct_at(void* m) { return new (m) T(); }
+template <> IP* construct_at<IP>(void* m) { return new (m) IP("10.0.0.2", "10.0.0.1"); }   // a parentless IP with source 0.0.0.0 asks the routing table
+template <> RawPDU* construct_at<RawPDU>(void* m) { return new (m) RawPDU(std::string()); }
+template <class T> static Bytes mk_on(uint8_t fill) {
+    void* m = ::operator new(sizeof(T));
+    memset(m, fill, sizeof(T));
+    T* o = construct_at<T>(m);
+    Bytes out;
+    try { out = o->serialize(); } catch (const exception_base&) {}
+    o->~T();
+    ::operator delete(m);
+    return out;
+}
 template <> PDU* mk<IP>() { return new IP("10.0.0.2", "10.0.0.1"); }
 template <> PDU* mk<RawPDU>() { return new RawPDU(std::string()); }
-template <> PDU* mk<RadioTap>() { return new RadioTap(); }   // a parentless IP with source 0.0.0.0 asks the routing table
 
 static std::vector<ClassInfo> g_classes;
 static int g_tier = 0;
@@ -485,7 +501,7 @@ static unsigned enum_limit() { return g_tier ? 16 : 8; }
 
 static void init_tables() {
     if (!g_classes.empty()) return;
-#define X(C) if (std::string(#C) != "RadioTap" && std::string(#C) != "RawPDU") g_classes.push_back(ClassInfo{#C, mk<Tins::C>, parse_class<Tins::C>, {}, 0});
+#define X(C) if (std::string(#C) != "RadioTap" && std::string(#C) != "RawPDU") g_classes.push_back(ClassInfo{#C, mk<Tins::C>, parse_class<Tins::C>, mk_on<Tins::C>, {}, 0, ""});
     VERIF_ENTRY_CLASSES(X)
 #undef X
     for (ClassInfo& c : g_classes) {
@@ -505,6 +521,8 @@ static void init_tables() {
     }
     g_classes.erase(std::remove_if(g_classes.begin(), g_classes.end(), [](const ClassInfo& c) { return c.rows.empty(); }), g_classes.end());
     for (ClassInfo& c : g_classes) {
+        Bytes a = c.make_on(0x00), b = c.make_on(0xff);
+        if (a != b) c.ctor_error = "default-constructed " + std::string(c.name) + " serialises as " + verif::hex(a, 64) + " on zeroed memory and as " + verif::hex(b, 64) + " on 0xff-filled memory";
         for (Row& r : c.rows) learn_row(c, r);
         check_disjoint(c);
     }
@@ -600,6 +618,7 @@ static void run_case(Src& s, Ctx& ctx, Case& cs) {
 
     // setup findings of this row (learned map, table) are reported by the cases that exercise the row
     for (auto& e : r.setup_errors) ctx.report(e.first, e.second);
+    if (!c.ctor_error.empty()) ctx.report("C15:" + std::string(c.name) + ":default-object-indeterminate-bits", c.ctor_error);
 
     // ---- prior state
     std::unique_ptr<PDU> p;
@@ -734,7 +753,13 @@ static void run_case(Src& s, Ctx& ctx, Case& cs) {
 
     // clause 4
     bool wire_checked = false;
-    if (serialisable) {
+    bool wire_applicable = true;
+    if (const IPv6* v6 = dynamic_cast<const IPv6*>(p.get())) {
+        // RFC 8200 4: with extension headers the upper-layer protocol number lives in the LAST extension header and the
+        // fixed header's Next Header names the first one; libtins' next_header() is the upper-layer tag (C04 owns the chain)
+        if (id == "IPv6.next_header" && !v6->headers().empty()) { wire_applicable = false; ctx.excluded("ipv6-next-header-behind-extension-headers"); }
+    }
+    if (serialisable && wire_applicable) {
         Bytes ser_after;
         std::string why2;
         if (!serialize(*p, ser_after, &why2)) {
@@ -785,10 +810,20 @@ static void run_case(Src& s, Ctx& ctx, Case& cs) {
                         VCHECK(ctx, false, sig + "wire-value",
                                c.name << ": after " << id << "(0x" << cs.v.hexs() << ") " << bitpos(b) << " is " << y << ", the specified position holds " << x << "; wire "
                                       << verif::hex(ser_after, 64));
-                    else
-                        VCHECK(ctx, false, sig + "serialisation-changed-outside-field",
+                    else {
+                        // name the specified field that owns the clobbered bit (keeps signatures of distinct causes distinct)
+                        std::string victim = "unassigned";
+                        for (const Row& q : c.rows) {
+                            if (!q.spec || &q == &r) continue;
+                            size_t sh = 8 * wirepos::dyn_shift(q.spec->dyn, ser_after.data(), ser_after.size());
+                            bool hit = false;
+                            for (unsigned j = 0; j < q.spec->width && !hit; ++j) hit = wirepos::wire_bit(*q.spec, j) + sh == b;
+                            if (hit && wirepos::cond_holds(q.spec->cond, ser_after.data(), ser_after.size())) { victim = q.info.name; break; }
+                        }
+                        VCHECK(ctx, false, sig + "serialisation-changed-outside-field:" + victim,
                                c.name << ": " << id << "(0x" << cs.v.hexs() << ") changed " << bitpos(b) << " which is neither the field nor a checksum/length; before "
                                       << verif::hex(ser_before, 64) << " after " << verif::hex(ser_after, 64));
+                    }
                     break;
                 }
             }
